@@ -22,8 +22,13 @@ import (
 // ------------------------------------------------------------------ script
 
 type Op struct {
-	Kind string `json:"kind"` // open write commit close delete reopen
+	Kind string `json:"kind"` // open write commit close delete reopen failwrite
 	W    int    `json:"w,omitempty"`
+	// failwrite: the file system stores only the first K bytes (1-7) of the writer's next
+	// 8-byte write and reports an error; the writer is then closed, what it had not committed
+	// is gone, and everything committed - also by writers that later reuse the file - must be
+	// exactly what was written
+	K int `json:"k,omitempty"`
 	// open
 	Start  int64 `json:"start,omitempty"`
 	Preset int64 `json:"preset,omitempty"` // preset end, 0 = none
@@ -198,6 +203,9 @@ func genScript(t *rapid.T) Script {
 		}
 		if len(m.writers) > 0 {
 			kinds = append(kinds, "write", "write", "commit", "commit", "commit", "close")
+			if rapid.IntRange(0, 5).Draw(t, "allow-failwrite") == 0 {
+				kinds = append(kinds, "failwrite")
+			}
 		}
 		if len(m.doms) > 0 && len(m.writers) == 0 {
 			kinds = append(kinds, "delete", "delete")
@@ -277,6 +285,13 @@ func genScript(t *rapid.T) Script {
 			op := Op{Kind: "commit", W: id, End: end}
 			sc.Ops = append(sc.Ops, op)
 			applyCommitModel(m, w, end, false)
+		case "failwrite":
+			id := ids()
+			sc.Ops = append(sc.Ops, Op{Kind: "failwrite", W: id, K: rapid.IntRange(1, 7).Draw(t, "k")})
+			if d := m.own(id); d != nil {
+				d.owner = -1
+			}
+			delete(m.writers, id)
 		case "close":
 			id := ids()
 			sc.Ops = append(sc.Ops, Op{Kind: "close", W: id})
@@ -492,7 +507,8 @@ func show(s []span) string {
 }
 
 func execute(sc Script, rep *kit.Report) (err error) {
-	e := &env{ctx: context.Background(), fs: xfs.NewMem(), ws: map[int]*domain.Writer{}}
+	ffs := newFaultFS(xfs.NewMem())
+	e := &env{ctx: context.Background(), fs: ffs, ws: map[int]*domain.Writer{}}
 	if oerr := e.open(sc.FileSize); oerr != nil {
 		return kit.Fail("open", "domain.Open: %v", oerr)
 	}
@@ -613,6 +629,30 @@ func execute(sc Script, rep *kit.Report) (err error) {
 					rep.Add("legal-commit-rejected:"+cerr.Error()[:min(60, len(cerr.Error()))], 1)
 				}
 			}
+		case "failwrite":
+			w, ok := e.ws[op.W]
+			if !ok {
+				continue
+			}
+			var b [8]byte
+			binary.LittleEndian.PutUint64(b[:], 0xdeadbeefdeadbeef)
+			ffs.armed.Store(int64(op.K))
+			_, werr := w.Write(b[:])
+			stillArmed := ffs.armed.Swap(0) != 0
+			switch {
+			case stillArmed:
+				rep.Class("short-write-not-reached") // the write did not go to a data file
+			case werr == nil:
+				return kit.Fail("short-write-swallowed", "%s: the file system stored %d of 8 bytes and reported an error, Writer.Write returned nil", where, op.K)
+			default:
+				rep.Class("short-write")
+			}
+			_ = w.Close()
+			delete(e.ws, op.W)
+			if d := m.own(op.W); d != nil {
+				d.owner = -1
+			}
+			delete(m.writers, op.W)
 		case "close":
 			w, ok := e.ws[op.W]
 			if !ok {
